@@ -264,6 +264,13 @@ class Facts6:
                     sharers = [w for w in list(sw[3].keys()) + list(sw[5]) if w != v and set(fn.variant_edges(sw, w)) & set(e)]
                     if not sharers:
                         out.add((pd, "is", v))
+        # `s.last()` / `s.first()` is Some  =>  s is not empty (whether tested with `== Some(..)`, `matches!`, `if let Some(..)`)
+        for f in list(out):
+            a, rel, b = f
+            for x, y in ((a, b), (b, a)):
+                m = re.match(r"^slice::(last|first)\((.*)\)$", x)
+                if m and ((rel == "==" and isinstance(y, str) and y.startswith("Some(")) or (rel == "is" and y == "Some")):
+                    out.add(canon("0", "!=", "len(%s)" % m.group(2)))
         for c, sw, rng in self.loops():
             e = fn.variant_edges(sw, "Some")
             if e and fn.only_via(site, sw[0], e):
